@@ -72,6 +72,7 @@ type world struct {
 	manyHs    []hash.Hasher
 	spock     []crypto.Signature
 	batches   []batchList
+	mixedKeys []crypto.PublicKey // the BLS keys with one ECDSA key among them (error paths)
 	// ECDSA
 	esk  [2]crypto.PrivateKey
 	epk  [2]crypto.PublicKey
@@ -276,6 +277,9 @@ func build(rc recipe, mat *material) (w *world, err error) {
 			w.esig[k] = append(w.esig[k], cp(s))
 		}
 	}
+	// a key list that contains a non-BLS key: the listed operations must refuse it (error path)
+	w.mixedKeys = append([]crypto.PublicKey(nil), w.pks...)
+	w.mixedKeys[len(w.mixedKeys)-1-len(rc.batch)%2] = w.epk[0]
 	return w, nil
 }
 
@@ -304,7 +308,7 @@ func newMaterial(rc recipe, rnd *choice.Src) (mat *material, err error) {
 
 func cp(b []byte) []byte { return append(make([]byte, 0, len(b)), b...) }
 
-var opNames = []string{"kmac.ComputeHash", "bls.Sign", "bls.Verify", "bls.VerifyWrong", "BLSVerifyPOP", "SPOCKVerify", "VerifyOneMessage", "VerifyManyMessages", "BatchVerify", "ecdsa.Sign", "ecdsa.Verify", "blshasher.ComputeHash", "SPOCKVerifyAgainstData"}
+var opNames = []string{"kmac.ComputeHash", "bls.Sign", "bls.Verify", "bls.VerifyWrong", "BLSVerifyPOP", "SPOCKVerify", "VerifyOneMessage", "VerifyManyMessages", "BatchVerify", "ecdsa.Sign", "ecdsa.Verify", "blshasher.ComputeHash", "SPOCKVerifyAgainstData", "errorpath"}
 
 // exec performs an operation and returns a canonical result string. Deterministic operations
 // return their bytes; ECDSA Sign (randomised) is checked by verification.
@@ -349,6 +353,24 @@ func (w *world) exec(o op, own hash.Hasher) (res string) {
 		bl := w.batches[o.a%len(w.batches)]
 		ok, err := crypto.BatchVerifyBLSSignaturesOneMessage(bl.pks, bl.sigs, w.msgs[0], w.kmac)
 		return fmt.Sprint(ok, err)
+	case "errorpath":
+		// the listed operations on inputs they must refuse: non-BLS key in a list, mismatched
+		// list lengths, a hasher of the wrong output size
+		switch o.b % 4 {
+		case 0:
+			ok, err := crypto.VerifyBLSSignatureOneMessage(w.mixedKeys, w.aggSig, w.msgs[0], w.kmac)
+			return fmt.Sprint("one.nonBLS ", ok, err != nil)
+		case 1:
+			bl := w.batches[o.a%len(w.batches)]
+			ok, err := crypto.BatchVerifyBLSSignaturesOneMessage(w.mixedKeys, bl.sigs, w.msgs[0], w.kmac)
+			return fmt.Sprint("batch.nonBLS ", ok, err != nil)
+		case 2:
+			ok, err := crypto.VerifyBLSSignatureManyMessages(w.manyKeys, w.manySig, w.manyMsgs[:len(w.manyMsgs)-1], w.manyHs)
+			return fmt.Sprint("many.mismatch ", ok, err != nil)
+		default:
+			ok, err := w.pks[ka].Verify(w.sigs[ka][mb], w.msgs[mb], own)
+			return fmt.Sprint("verify.badhasher ", ok, err != nil)
+		}
 	case "ecdsa.Sign":
 		k := o.a % 2
 		s, err := w.esk[k].Sign(w.msgs[mb], own)
